@@ -588,6 +588,27 @@ impl WriteNode {
     }
 
     fn remove_all(&self) -> Result<(), io::Error> {
+        if let Some((owner, diff)) = &self.diff {
+            // Everything the published version holds here and below is
+            // removed, and nothing added so far survives.
+            let version = self.zone.last_published_version();
+            let mut diff = diff.lock().unwrap();
+            diff.clear_added_below(owner);
+            let mut op = |owner: &StoredName, rrset: &SharedRrset| {
+                if !rrset.is_empty() {
+                    diff.remove(owner.clone(), rrset.rtype(), rrset.clone());
+                }
+            };
+            match self.node {
+                Either::Left(ref apex) => {
+                    apex.for_each_rrset(version, &mut op)
+                }
+                Either::Right(ref node) => {
+                    node.for_each_rrset(owner, version, &mut op)
+                }
+            }
+        }
+
         match self.node {
             Either::Left(ref apex) => {
                 apex.remove_all(self.zone.new_version);
